@@ -179,6 +179,13 @@ for with_all in (False, True):
                  z3.BoolVal(not L['prepared_txs'] and not L['committing_txs'] and not L['aborting_txs'])]
         ck.require(ex, 'R4_orphaned_locks', r.pc, None, z3.And(concl), wit, lambda m, w: 'orphan-classification')
 
+# ------------------------------------------------------------------ X: a logged decision survives a crash at any byte of commit()/abort()
+# The coordinator runs with a *real* TxWal (file model) that already holds Begin / votes / PhaseChange->Prepared of the
+# transaction; commit() (or abort()) is executed from MIR, then the file is cut at every byte written by that call and
+# recovery (TxWal::open + TxRecoveryState::from_wal) is executed: once TxComplete is wholly on disk the transaction is in no
+# in-progress class; before the first new record is complete it is still Prepared with its votes; never anything else.
+exec(open(os.path.join(os.path.dirname(os.path.abspath(__file__)), 'c13_decision.py')).read())
+
 # ------------------------------------------------------------------ native replay
 for v in ck.violations:
     w = v['witness']
